@@ -17,7 +17,7 @@ namespace AsmjitVerif.Invoke
 open AsmjitVerif.CallConv
 
 inductive Mnm
-  | mov | movsx | movzx | movsxd | lea | movaps | movups | movd | movq | movss | movlps | and_ | sub | call | other | str | ldr | strb | strh
+  | mov | movsx | movzx | movsxd | lea | movaps | movups | movd | movq | movss | movlps | and_ | sub | call | other | str | ldr | strb | strh | sxtb | sxth | sxtw | uxtb | uxth
   deriving DecidableEq, Repr
 
 inductive XOp
@@ -278,7 +278,8 @@ def onBeforeInvoke (is64 avx : Bool) (calleePops : Bool) (d : Detail) (ops : Lis
           callStackAlign := s.csAlign, temps := s.temps }
 
 /-! ### AArch64 (a64rapass.cpp): no temporaries, no immediate stores – an immediate goes through a new 64-bit register, a GP stack
-    argument is stored in the argument's size (fix C06-21), a vector one in the register's; register arguments are passed as they are -/
+    argument is stored in the argument's size (fix C06-21), a vector one in the register's; a narrower GP register is extended into
+    a new register first (fix C06-22), other register arguments are passed as they are -/
 
 /-- a64 `move_imm_to_reg_arg`: the immediate as it is moved (always into a new x register) -/
 def a64ImmValue (t : Nat) (imm : BitVec 64) : Option (BitVec 64) :=
@@ -292,6 +293,23 @@ def a64RtOfType (t : Nat) : Nat :=
   if isInt t then (if tySize t ≤ 4 then 5 else 6)
   else if tySize t ≤ 4 then 9 else if tySize t ≤ 8 then 10 else 11
 
+/-- fix C06-22 `needs_int_extension`: an 8/16-bit register for a wider integer parameter, a signed 32-bit register for a signed
+    64-bit one -/
+def a64NeedsExt (dt st : Nat) : Bool :=
+  isInt dt && isInt st && (((isGp8 st || isGp16 st) && decide (tySize dt > tySize st)) || (st = 38 && dt = 40))
+
+/-- a64 `move_reg_to_reg_arg` (fix C06-22): the extension instruction `id <- ext vid` and the register type of the new register -/
+def a64ExtInst (dt st id vid : Nat) : XI × Nat :=
+  let signExt := dt % 2 = 0 && st % 2 = 0
+  let rt := if tySize dt > 4 then 6 else 5
+  if !signExt then (⟨if isGp8 st then .uxtb else .uxth, false, [.reg 5 id, .reg 5 vid], false⟩, rt)
+  else (⟨if isGp8 st then .sxtb else if isGp16 st then .sxth else .sxtw, false, [.reg rt id, .reg 5 vid], false⟩, rt)
+
+/-- … into a new virtual register; answers the state and the new (rt, id) -/
+def a64MoveRegToRegArg (s : LSt) (arg : FuncValue) (vid : Nat) (st : Nat) : LSt × Nat × Nat :=
+  let r := a64ExtInst arg.typeId st s.nextV vid
+  ({ s with nextV := s.nextV + 1 }.emit r.1, r.2, s.nextV)
+
 def a64LowerValue (s : LSt) (arg : FuncValue) (op : ArgOp) : Except String (LSt × ArgOp) :=
   -- fix C06-21: a GP stack argument is stored in the ARGUMENT's size
   let str (s : LSt) (rt id : Nat) : LSt :=
@@ -300,6 +318,7 @@ def a64LowerValue (s : LSt) (arg : FuncValue) (op : ArgOp) : Except String (LSt 
       (if n = 1 then s.emit ⟨.strb, false, [.reg 5 id, .mem a64SpId arg.stackOffset 0], false⟩
        else if n = 2 then s.emit ⟨.strh, false, [.reg 5 id, .mem a64SpId arg.stackOffset 0], false⟩
        else if n = 4 then s.emit ⟨.str, false, [.reg 5 id, .mem a64SpId arg.stackOffset 0], false⟩
+       else if n = 8 && isInt arg.typeId then s.emit ⟨.str, false, [.reg 6 id, .mem a64SpId arg.stackOffset 0], false⟩   -- the x view
        else s.emit ⟨.str, false, [.reg rt id, .mem a64SpId arg.stackOffset 0], false⟩)
     else s.emit ⟨.str, false, [.reg rt id, .mem a64SpId arg.stackOffset 0], false⟩
   match op with
@@ -312,7 +331,15 @@ def a64LowerValue (s : LSt) (arg : FuncValue) (op : ArgOp) : Except String (LSt 
       let s := { s with nextV := id + 1 }.emit ⟨.mov, false, [.reg 6 id, .imm w], false⟩
       if arg.isReg then .ok (s, .gp id 41) else .ok (str s 6 id, op)
   | .gp vid t =>
-    if arg.isReg then (if lowerValue.groupOfRt arg.regType ≠ 0 then .error "InvalidAssignment" else .ok (s, op))
+    if arg.isReg then
+      if lowerValue.groupOfRt arg.regType ≠ 0 then .error "InvalidAssignment"
+      else if a64NeedsExt arg.typeId t then
+        let (s, rt, id) := a64MoveRegToRegArg s arg vid t
+        .ok (s, .gp id (if rt = 6 then 41 else 39))
+      else .ok (s, op)
+    else if a64NeedsExt arg.typeId t then
+      let (s, rt, id) := a64MoveRegToRegArg s arg vid t
+      .ok (str s rt id, op)
     else .ok (str s (a64RtOfType t) vid, op)
   | .vec vid t =>
     if arg.isReg then (if lowerValue.groupOfRt arg.regType ≠ 1 then .error "InvalidAssignment" else .ok (s, op))
@@ -339,6 +366,7 @@ def Mnm.text : Mnm → String
   | .mov => "mov" | .movsx => "movsx" | .movzx => "movzx" | .movsxd => "movsxd" | .lea => "lea" | .movaps => "movaps"
   | .movups => "movups" | .movd => "movd" | .movq => "movq" | .movss => "movss" | .movlps => "movlps" | .and_ => "and"
   | .sub => "sub" | .call => "call" | .other => "?" | .str => "str" | .ldr => "ldr" | .strb => "strb" | .strh => "strh"
+  | .sxtb => "sxtb" | .sxth => "sxth" | .sxtw => "sxtw" | .uxtb => "uxtb" | .uxth => "uxth"
 
 def hexOf (v : BitVec 64) : String := String.ofList (Nat.toDigits 16 v.toNat)
 
